@@ -29,33 +29,20 @@ where
         // and write that to the fn write_xml(&self, writer: &mut W) -> WriterResult<()> {
 
         writeln!(writer, "Rc::new(restrictions::Restrictions {{")?;
-        if let Some(min_inclusive) = &self.min_inclusive {
-            writeln!(writer, "   min_inclusive: Some({min_inclusive}), ")?;
-        }
-        if let Some(max_inclusive) = &self.max_inclusive {
-            writeln!(writer, "   max_inclusive: Some({max_inclusive}), ")?;
-        }
-        if let Some(min_exclusive) = &self.min_exclusive {
-            writeln!(writer, "   min_exclusive: Some({min_exclusive}), ")?;
-        }
-        if let Some(max_exclusive) = &self.max_exclusive {
-            writeln!(writer, "   max_exclusive: Some({max_exclusive}), ")?;
-        }
-        if let Some(length) = &self.length {
-            writeln!(writer, "   length: Some({length}), ")?;
-        }
-        if let Some(min_length) = &self.min_length {
-            writeln!(writer, "   min_length: Some({min_length}), ")?;
-        }
-        if let Some(max_length) = &self.max_length {
-            writeln!(writer, "   max_length: Some({max_length}), ")?;
-        }
+        write_numeric_facet::<W, i32>(writer, "min_inclusive", self.min_inclusive.as_deref())?;
+        write_numeric_facet::<W, i32>(writer, "max_inclusive", self.max_inclusive.as_deref())?;
+        write_numeric_facet::<W, i32>(writer, "min_exclusive", self.min_exclusive.as_deref())?;
+        write_numeric_facet::<W, i32>(writer, "max_exclusive", self.max_exclusive.as_deref())?;
+        write_numeric_facet::<W, usize>(writer, "length", self.length.as_deref())?;
+        write_numeric_facet::<W, usize>(writer, "min_length", self.min_length.as_deref())?;
+        write_numeric_facet::<W, usize>(writer, "max_length", self.max_length.as_deref())?;
 
         // add the enumeration
         if let Some(enumeration) = &self.enumeration {
             writeln!(writer, "   enumeration: Some(vec![")?;
             for value in enumeration {
-                writeln!(writer, "      \"{value}\".to_string(),")?;
+                // the value is schema text: emit it as an escaped string literal
+                writeln!(writer, "      {value:?}.to_string(),")?;
             }
             writeln!(writer, "   ]),")?;
         }
@@ -65,6 +52,19 @@ where
 
         Ok(())
     }
+}
+
+/// The facet value is schema text. It is emitted only when it is a number of the facet's type,
+/// and then as that number, never as the text itself.
+fn write_numeric_facet<W, T>(writer: &mut W, name: &str, value: Option<&str>) -> WriterResult<()>
+where
+    W: io::Write,
+    T: std::str::FromStr + std::fmt::Display,
+{
+    if let Some(number) = value.and_then(|v| v.trim().parse::<T>().ok()) {
+        writeln!(writer, "   {name}: Some({number}), ")?;
+    }
+    Ok(())
 }
 
 pub fn build_restrictions<'n>(restriction: Node<'n, 'n>) -> Restrictions {
